@@ -20,7 +20,7 @@ PROP = {
                   "subsequence that never crosses a clear, so that once the socket has drained the lane has seen "
                   "the fold of everything issued, and a sync frame is owed to a SYNC consumer only while a write is "
                   "pending (none once Idle). The model is tied to the public ValueDownlinkRuntime / "
-                  "MapDownlinkRuntime by lock-step differential execution (one input, run to idle, compare all "
+                  "MapDownlinkRuntime (MapInterpretation and NoInterpretation) by lock-step differential execution (one input, run to idle, compare all "
                   "consumer notifications and socket frames) and a Lean monitor re-decides the property on the "
                   "implementation's traces.",
     "level_note": "The tokio scheduler, select! branch order and bursts of simultaneous inputs are outside the model "
